@@ -133,6 +133,12 @@ class GateInterp(Interp):
         h[cid] = init
         return VCell(cid)
 
+    def mutate_doc(self, ctx: Ctx, d: "VDoc"):
+        """In-place modification of a loaded document: from now on it stands for a different document (index -1 - i), whose validity says
+        nothing about the validity of model file i."""
+        d.idx = f"(- (- 1) {d.idx})" if not d.idx.startswith("(- (- 1)") else d.idx
+        ctx.ghost["doc_mutated"] = True
+
     def event(self, ctx: Ctx, what: str, seq: Optional[str] = None):
         n = self.n(ctx)
         if what not in self.events_seen:
@@ -229,6 +235,8 @@ class GateInterp(Interp):
         return super().op_is(ctx, a, b)
 
     def subscript_hook(self, ctx: Ctx, base: V, idx: V):
+        if isinstance(base, VDoc):
+            return VOpaque("<part of a document>")
         if isinstance(base, VOpaque):
             return VOpaque(f"{base.name}[]")
         if isinstance(base, VFiles) and isinstance(idx, VInt):
@@ -319,6 +327,13 @@ class GateInterp(Interp):
                     self.heap(ctx)[r.cid] = f"(seq.++ {self.heap(ctx)[r.cid]} {self.heap(ctx)[args[0].cid]})"
                     return VNone()
                 raise Unsupported(f"list.{name}")
+            if isinstance(r, VDoc):
+                if name in ("pop", "update", "setdefault", "clear", "popitem", "__setitem__", "__delitem__"):
+                    # the document is modified in place: what is validated afterwards is no longer the content of the model file
+                    self.mutate_doc(ctx, r)
+                    return VOpaque(f"<document>.{name}()")
+                if name in ("get", "keys", "items", "values", "copy", "__contains__"):
+                    return VOpaque(f"<document>.{name}()")
             if isinstance(r, VHandle) and name in ("close", "read", "__enter__"):
                 return VOpaque("<file content>") if name == "read" else r
             if isinstance(r, VStr):
@@ -418,6 +433,15 @@ class GateInterp(Interp):
                     self.assign(ctx, item.optional_vars, v, env, fi)
             self.exec_block(ctx, s.body, env, fi)
             return True
+        if isinstance(s, ast.Delete):
+            for t in s.targets:
+                if isinstance(t, ast.Subscript):
+                    base = force(ctx, self.eval(ctx, t.value, env, fi))
+                    if isinstance(base, VDoc):
+                        self.mutate_doc(ctx, base)
+                        continue
+                raise Unsupported("del statement")
+            return True
         if isinstance(s, (ast.Import, ast.ImportFrom)):
             for al in s.names:
                 env[al.asname or al.name.split(".")[0]] = VOpaque(al.name)
@@ -427,6 +451,9 @@ class GateInterp(Interp):
     def assign_hook(self, ctx: Ctx, target: ast.expr, v: V, env, fi) -> bool:
         if isinstance(target, (ast.Attribute, ast.Subscript)):
             base = force(ctx, self.eval(ctx, target.value, env, fi))
+            if isinstance(base, VDoc):
+                self.mutate_doc(ctx, base)
+                return True
             if isinstance(base, VOpaque):
                 return True  # a store into an opaque object (e.g. args.x = ...): no effect on the modelled state
         return False
